@@ -14,6 +14,7 @@ import ChumskyModel.Model.Text
 import ChumskyModel.Model.Pratt
 import ChumskyModel.Model.Drops
 import ChumskyModel.Model.Input
+import ChumskyModel.Model.Nested
 open Chumsky
 
 abbrev P := StateT (List String) (Except String)
@@ -525,6 +526,58 @@ def runInput (kind : String) (sched toks : List Nat) : String :=
     renderObs (replay iterImpl sched () [{ rest := src, idx := 0, lastEnd := none }])
   | other => s!" ERR unknown-kind-{other}"
 
+/-! ### nested inputs (C16):  NG <id> <ek> <gap> <mode> <fuel> T <ngroups> (<gid> <n> kids..)* G <ngram> I <inputspec> -/
+
+partial def ngP : P NGram := do
+  match (← tok) with
+  | "lift" => pure (.lift (← gP))
+  | "nest" => do let a ← ngP; let b ← gP; pure (.nestedIn a b)
+  | "nthen" => do let a ← ngP; let b ← ngP; pure (.then_ a b)
+  | "nor" => do let a ← ngP; let b ← ngP; pure (.or_ a b)
+  | "nornot" => pure (.orNot (← ngP))
+  | "nspan" => pure (.mapWithSpan (← ngP))
+  | t => throw s!"bad nested grammar token {t}"
+
+structure NCase where
+  id : String
+  gap : Nat
+  mode : Mode
+  fuel : Nat
+  groups : List (Nat × List Nat)
+  g : NGram
+  inputs : List (List Nat)
+
+def nestedCase : P NCase := do
+  let id ← tok
+  let ek ← tok
+  if ek != "rich" then throw s!"nested cases are Rich only, got {ek}"
+  let gap ← nat
+  let mode ← match (← tok) with
+    | "parse" => pure Mode.emit | "check" => pure Mode.check
+    | t => throw s!"bad mode {t}"
+  let fuel ← nat
+  let t ← tok
+  if t != "T" then throw "expected T"
+  let n ← nat
+  let mut groups := []
+  for _ in [0:n] do
+    let gid ← nat
+    let kids ← natList
+    groups := (gid, kids) :: groups
+  let g ← tok
+  if g != "G" then throw "expected G"
+  let ng ← ngP
+  let i ← tok
+  if i != "I" then throw "expected I"
+  let inputs ← inputsP
+  pure { id, gap, mode, fuel, groups := groups.reverse, g := ng, inputs }
+
+def mkNEnv (c : NCase) (toks : List Nat) : NEnv :=
+  let n := toks.length
+  { base := { toks := toks, kind := .mapped, ek := .rich, defs := [], memoOn := false,
+              tspans := layoutSpans c.gap n 0, eoi := (n * (c.gap + 2) + c.gap, n * (c.gap + 2) + c.gap) },
+    groups := c.groups, gap := c.gap }
+
 partial def loop (inp out : IO.FS.Stream) : IO Unit := do
   let line ← inp.getLine
   if line.isEmpty then return ()
@@ -557,6 +610,17 @@ partial def loop (inp out : IO.FS.Stream) : IO Unit := do
       for ts in inputs do
         if fam == "tk" then out.putStrLn s!"{id}.{k} M -"
         else out.putStrLn s!"{id}.{k} M {runDrop fam n boxed mode hi ts}"
+        k := k + 1
+    | .error e => out.putStrLn s!"ERR {e} :: {line.trimAscii.toString}"
+    loop inp out
+  else if toks.head? == some "NG" then
+    match (nestedCase.run toks.tail) with
+    | .ok (c, _) =>
+      let mut k := 0
+      for ts in c.inputs do
+        let ne := mkNEnv c ts
+        out.putStrLn s!"{c.id}.{k} M {renderTop (parseTopN c.fuel ne c.mode c.g)}"
+        out.putStrLn s!"{c.id}.{k} S {renderSpec (pegTopN c.fuel ne c.g)}"
         k := k + 1
     | .error e => out.putStrLn s!"ERR {e} :: {line.trimAscii.toString}"
     loop inp out
